@@ -32,6 +32,7 @@ fn main() {
                 "C04" => irprops::run_c04(&Ctx::new("C04", &tier)),
                 "C05" => irprops::run_c05(&Ctx::new("C05", &tier)),
                 "ir-dump" => irprops::dump_ir(&args[2..]),
+                "ir-parse" => irprops::dev_parse(&args[2..]),
                 "ir-passes" => irprops::dev_passes(&args[2..]),
                 "gen-dump" => progprops::dump(&args[2..]),
                 "smoke" => smoke::run(&args[2..]),
